@@ -294,6 +294,7 @@ structure St where
   maxHeight : Nat := 0
   staleWrites : Nat := 0
   hypChecks : Nat := 0
+  syncSignRefused : Nat := 0
   borkedOps : Nat := 0
   errKinds : List (String × Nat) := []
   samples : Nat := 0
@@ -921,11 +922,18 @@ def syncLine (s : St) (ws : List String) : IO St := do
   let kinds := match (kv? (afterArrow ws) "msgs").getD "-" with
     | "-" => []
     | k => k.splitOn ","
+  -- ProcessChanSyncMsg re-signs when the node owes a commitment.  If that SignNextCommitment is
+  -- refused for a channel-constraint reason (reserve, fee floor, limits) the very same call is
+  -- refused without any restart as well: not a consequence of the reload, the schedule just ends.
+  let signRefused := impl.startsWith "err:" && constraintErr (impl.drop 4).toString && impl != "err:ok" && impl != "err:noWindow"
+  let (e, ms', msgs) := (s.model node).processSync ((kvNat? ws "next").getD 0) ((kvNat? ws "tail").getD 0)
   if impl != "ok" then
-    s ← monitor s "sync-error" s!"node={node} ProcessChanSyncMsg after a restart of both peers => {impl}"
+    if signRefused && (!s.modelOk || e.toString == impl) then
+      s := { s with syncSignRefused := s.syncSignRefused + 1 }
+    else
+      s ← monitor s "sync-error" s!"node={node} ProcessChanSyncMsg after a restart of both peers => {impl}"
     s := { s with dead := true }
   if !s.modelOk then return s
-  let (e, ms', msgs) := (s.model node).processSync ((kvNat? ws "next").getD 0) ((kvNat? ws "tail").getD 0)
   if e.toString != impl then
     mismatch s s!"node={node} chan sync: model={e.toString} impl={impl}"
   else if msgs.map msgKind != kinds then
@@ -1163,6 +1171,7 @@ def main : IO Unit := do
   IO.println s!"STAT revocations_checked={s.revsChecked}"
   IO.println s!"STAT stale_handle_writes_checked={s.staleWrites}"
   IO.println s!"STAT failed_write_operations={s.borkedOps}"
+  IO.println s!"STAT chan_sync_resign_refused_by_channel_constraints={s.syncSignRefused}"
   IO.println s!"STAT dishonest_revocations={s.bogus}"
   IO.println s!"STAT dishonest_revocations_at_even_heights={s.bogusEven}"
   IO.println s!"STAT theorem_hypotheses_evaluated_on_real_states={s.hypChecks}"
